@@ -224,6 +224,11 @@ template <class M> int run(const char *file, const std::vector<std::string> &voc
         std::vector<unsigned> ids; std::string x;
         while (in >> x) ids.push_back(strtoul(x.c_str(), NULL, 16));
         std::cout << r.score(bos, ids) << '\n';
+      } else if (cmd == "IDS") {
+        // the model's WordIndex of every harness word id (hex), in harness id order
+        std::ostringstream o;
+        for (size_t i = 0; i < r.to_model.size(); ++i) o << (i ? " " : "") << std::hex << r.to_model[i];
+        std::cout << o.str() << '\n';
       } else if (cmd == "P") {
         // partial.hh: P before.. ; between.. ; after..  -> CheckAdjustment of lm/partial_test.cc
         std::vector<std::vector<lm::WordIndex> > parts(1); std::string x;
